@@ -81,6 +81,8 @@ type restartOpts struct {
 	Mutate        func(store map[uint][]byte) // damage (C16)
 	NoCheck       bool                        // skip the clean-adoption assertions (C16)
 	AdoptFailNext []byte                      // Persistence operations which fail once during AdoptSession
+	StoreFlavour  string                      // "" = drawn by newH
+	FSMutate      func(dir string)            // stray entries in the directory of a filesystem-flavoured store
 }
 
 // restart stops the process of h (which must have been shut down) after K
@@ -116,7 +118,7 @@ func (h *H) restart(o restartOpts) (*H, []Pending) {
 	h.WithLock(func() { deliveries = append(deliveries, h.Broker.Deliveries...) })
 	b := refmqtt.NewFromSnapshot(snap, deliveries)
 
-	n := newH(h.rt, h.prop, sim.Options{Config: o.Config, Adopt: true, Store: store, Broker: b, AdoptFailNext: o.AdoptFailNext})
+	n := newH(h.rt, h.prop, sim.Options{Config: o.Config, Adopt: true, Store: store, Broker: b, AdoptFailNext: o.AdoptFailNext, StoreFlavour: o.StoreFlavour, FSMutate: o.FSMutate})
 	n.genBase = append(append([]*sim.World(nil), h.genBase...), h.World)
 	n.nTopic = h.nTopic
 	n.gen = h.gen + 1
